@@ -17,6 +17,7 @@ func FuzzVerifC15PodNetworks(f *testing.F) {
 		f.Add([]byte(s), []byte(s))
 	}
 	f.Fuzz(func(t *testing.T, networks, request []byte) {
+		defer g.FuzzGuard(t, "FuzzVerifC15PodNetworks", networks, request)()
 		n, r := g.Bytes(networks), g.Bytes(request)
 		vfC15RunAnno(g.FuzzSink{T: t}, vfC15AnnoScenario{Kind: "fuzz", Networks: &n, Request: &r})
 	})
